@@ -162,6 +162,32 @@ def boot_check(rec, step, model_bytes):
                   'shipped recipe %s does not load: %s' % (base, harness.exc_class(e)))
       return
     rec.probe('shipped_loaded')
+    # the loaded rules must be the rules the file states: same (regex, operation, algorithm)
+    # sequence, and the same recipe as entering those rules through the API one by one
+    exported = q.get_quantization_recipe()
+    stated = [(r['regex'], r['operation'], r['algorithm_key']) for r in content]
+    loaded = [(r['regex'], getattr(r['operation'], 'value', r['operation']),
+               getattr(r['algorithm_key'], 'value', r['algorithm_key'])) for r in exported]
+    if stated != loaded:
+      rec.violate('C12/shipped-recipe/' + base, step,
+                  'shipped recipe %s states rules %s but loads to %s' % (base, stated, loaded))
+      return
+    from sim.props import c11 as _c11
+    q_api = quantizer.Quantizer(bytearray(model_bytes))
+    try:
+      for r in content:
+        q_api.update_quantization_recipe(r['regex'], r['operation'],
+                                         _c11.cfg_from_dict(r.get('op_config')), r['algorithm_key'])
+    except Exception as e:  # pylint: disable=broad-except
+      rec.violate('C12/shipped-recipe/' + base, step,
+                  'rules of shipped recipe %s are refused by update_quantization_recipe: %s'
+                  % (base, harness.exc_class(e)))
+      return
+    if jdigest(q_api.get_quantization_recipe()) != jdigest(exported):
+      rec.violate('C12/shipped-recipe/' + base, step,
+                  'shipped recipe %s loads to a different recipe than entering its rules through '
+                  'update_quantization_recipe' % base)
+      return
     if base[:-5] in A.SHIPPED:
       if jdigest(q.get_quantization_recipe()) != jdigest(content):
         rec.violate('C12/shipped-recipe/' + base, step,
